@@ -28,6 +28,7 @@ class Ans:
         self.steps = []      # (status, complete, srcmask, repmask)
         self.dig = []        # digest of the decoder's internal state after each submission call (LDPC / 2D)
         self.F = None
+        self.ED = None
         self.E = None; self.CB = []; self.RO = None; self.LK = None; self.PM = None
         if self.crash:
             return
@@ -59,6 +60,8 @@ class Ans:
                     self.dig.append(parts[3] if len(parts) > 3 else None)
                 else:
                     self.F = rec
+            elif tok.startswith("ED"):
+                self.ED = int(tok[2:])
             elif tok.startswith("E"):
                 self.E = tok[1:]
             elif tok.startswith("CB"):
